@@ -2,12 +2,19 @@
 import derivegen as dg
 from derivegen import prepare, route, oracle
 
-RULE = ("DRT <sid> <schema> <def> <value> <expected> <re-framed hex>…: the value is encoded and decoded again by the real derive output and by "
-        "gen_encode/gen_decode of the Coq model; additionally two re-framed encodings of the same value (indefinite-length containers, "
-        "non-preferred head widths, produced by the generator's reference encoder) are decoded. O=: every decode yields the value with skipped "
+RULE = ("DRT <sid> <schema> <def> <value> <expected> <hexA> <hexB> c=<choices>: the value is encoded and decoded again by the real derive output and by "
+        "gen_encode/gen_decode of the Coq model; additionally two re-framed encodings of the same value are decoded. hexA is a re-framing in the sense of "
+        "Model/DeriveReframe.v — the domain of theorem C09_roundtrip_reframed (Props/C09.v): every struct / variant body container definite with any "
+        "head width or indefinite, at every nesting level; map keys, variant indices, the tags at the four levels and the head of the enum's 2-array in any "
+        "width; leaves, nulls and Vec headers as written; the enum's 2-array stays definite (class enum_pair_indefinite: the generated decoder demands "
+        "Some(2)). It is produced by the generator's mirror of DeriveReframe.reframe_with from the choice list c= (every 5th case all-indefinite with 8-byte "
+        "heads, every 5th all-indefinite with minimal heads, the rest random); the model side recomputes it from c= with the extracted Coq function and both "
+        "sides echo the bytes (R<hex>:<outcome>), so the mirror is checked against the Coq definition byte for byte. hexB is a freer re-framing (also wide "
+        "integer leaves and indefinite / wide Vec headers: outside the theorem, correspondence only). O=: every decode yields the value with skipped "
         "fields defaulted and consumes exactly the input; fields of borrowing types point into the input buffer, #[b] Cow fields are Borrowed, "
         "#[n] Cow fields Owned. DDEC <sid> <schema> <def> <hex> [!class]: decoder-only cases — byte-level mutations and truncations of valid "
-        "encodings, changed or removed tags at every level, unknown top-level variants; outcome class, value and end position are compared with "
+        "encodings, changed or removed tags at every level, unknown top-level variants, and every non-index_only enum's encoding with its 2-array turned "
+        "indefinite (!message); outcome class, value and end position are compared with "
         "the model, O= checks the expected error class where the generator knows it. Schema grammar as in C08 (incl. lifetimes/#[b]).")
 ASSUMPTIONS = ["indefinite-length arrays with 2^31 or more elements overflow the generated i32 counter; outside the input sizes exercised",
                "pointer identity of borrowed data is a harness-side oracle only (the model has no addresses)"]
